@@ -205,7 +205,7 @@ func cmdBlockProof(args []string) int {
 		fmt.Printf("lines=%d\n", out.n)
 		return 0
 	}
-	grids := [][]uint64{{1, 1, 1, 1}, {1, 1, 2, 3}, {1, 1, 1, 1, 3}, {2, 2, 2, 2, 2, 2, 2}, {5, 1, 1, 1}}
+	grids := [][]uint64{{1, 1, 1, 1}, {1, 1, 2, 3}, {1, 1, 1, 1, 3}, {2, 2, 2, 2, 2, 2, 2}, {5, 1, 1, 1}, {0, 0, 0, 0}, {0, 1, 1, 1, 0}}
 	statuses := []string{"type", "view", "hash", "inst", "height", "forged"}
 	base := func(ws []uint64, signers []int) bpCase {
 		c := bpCase{weights: ws, ht: protocol.LEAN_HELIX_COMMIT, inst: clusterInstance, hashMode: "match", seed: "ok", block: "match"}
